@@ -29,6 +29,11 @@ CLAIMS = {
   text="Exploration: all ordered pairs [a,b] x [c,d] inside four 14-day (thorough 20-day) windows (leap day, year end, lower and upper limit of the calendar) are enumerated completely, and random forward ranges with day/month/year endpoints over years 1..9999 are drawn; the result must be one of the relations whose defining endpoint constraints (documentation diagram) hold, never Invalid, converse under operand swap, Equal on identical intervals, and exactly one simplified verdict must hold.",
   note="Trusted: 13 predicates over civil-day numbers and the converse table in checks/c06; operand convention taken from TestDateRange_Compare. Backward ranges are outside the statement.",
   design="6.6"),
+ "C07": dict(
+  technique="algebraic-law PBT (rapid): reflexivity up to copy, permutation invariance (all permutations of small child lists), symmetry, edit sensitivity, aliasing after mutation",
+  text="Exploration: random trees over every node kind with its own equality rule (biased to several same-kind and duplicate siblings) are built through the API; each is deep-copied into a fresh document (equal text, disjoint identity sets, source and source document unchanged, a later mutation of either side never shows in the other), compared with every permutation of each child list of up to 4 entries and with a random shuffle of all levels, compared symmetrically with independent trees, edited copies and same-kind value swaps, and with insert/delete/change edits of plain nodes which must never be deep-equal. One documented-behaviour finding (C07-F1: Before/After dates make Date.Equals a non-equivalence) is excluded by class and counted.",
+  note="Trusted: identity via interface values and RawSimpleNode pointers; copies go to a fresh document. Cases inside finding class C07-F1 that fail are counted as excluded_known, passing behaviour inside the class is still checked.",
+  design="6.7"),
  "C12": dict(
   technique="metamorphic PBT (rapid) + exhaustive string-pair enumeration: range, operand-swap symmetry, identity, monotonicity, shift invariance, neutral 0.5",
   text="Exploration: all ordered string pairs over {a,b} up to length 9 (thorough 10) and {a,b,c} up to 5 (6) are enumerated; random name pairs (punctuation, case, digits, other scripts; independent or edited copies) x boost/prefix parameters, random date triples (all shapes, keywords, ranges) x MaxYears, and pairs of random family graphs x default/random options (weights summing to 1) are generated. Oracles: every score in [0,1] and not NaN, f(a,b)=f(b,a) for strings, dates, individuals, lists, families and surrounding similarity, 1 on identical names/dates, date similarity monotone in |Years difference|, 0 beyond MaxYears, unchanged under a 400-year shift, exactly 0.5 for the documented missing-information cases and list padding.",
